@@ -5,7 +5,9 @@ package main
 
 import (
 	"fmt"
+	"go/token"
 	"go/types"
+	"os"
 	"sort"
 	"strconv"
 	"strings"
@@ -883,6 +885,31 @@ func (c *Ctx) derefUses(v ssa.Value, depth int) []ssa.Instruction {
 			}
 		case *ssa.Phi:
 			out = append(out, c.derefUses(u, depth+1)...)
+		case *ssa.Call:
+			// handed to a library function that dereferences the corresponding parameter at a point where the
+			// parameter has not been compared with nil: the call is the dereference
+			g := u.Call.StaticCallee()
+			if g == nil || !inLib(g) || len(g.Blocks) == 0 || len(g.Params) != len(u.Call.Args) {
+				continue
+			}
+			for i, a := range u.Call.Args {
+				if a != v {
+					continue
+				}
+				pk := c.key(g.Params[i], nil)
+				for _, inner := range c.derefUses(g.Params[i], depth+1) {
+					guarded := false
+					for _, at := range c.domAtoms(inner.Block()) {
+						if at.Kind == "nil" && !at.Pos && at.Subj == pk {
+							guarded = true
+						}
+					}
+					if !guarded {
+						out = append(out, use)
+						break
+					}
+				}
+			}
 		}
 	}
 	return out
@@ -1323,4 +1350,331 @@ func ruleREDUCESITES(c *Ctx, r *Report) {
 		}
 	}
 	r.floor(rule, "reduce calls in the parse loop", n, 2)
+}
+
+// NIL-TYPED (C13/C01/C12): no typed nil pointer becomes an operand. The validators and renderers test
+// operands with `x == nil` / `x != nil` on the interface value; a nil *Expression boxed into the interface
+// passes those tests and is dereferenced afterwards.
+func ruleNILTYPED(c *Ctx, r *Report) {
+	const rule = "NIL-TYPED"
+	r.doc(rule, "every *Expression / *RangeBoundary that the library boxes into an interface value (operand fields, constructor arguments) is provably non-nil where it is boxed: a fresh allocation, the result of a library function all of whose returns are non-nil, a comma-ok assertion under ok, or a local that no foreign callee (encoding/json given its address) can have set to nil")
+	n := 0
+	for _, f := range c.Funcs {
+		if !inLib(f) {
+			continue
+		}
+		for _, b := range f.Blocks {
+			for _, in := range b.Instrs {
+				mi, ok := in.(*ssa.MakeInterface)
+				if !ok {
+					continue
+				}
+				pt, ok := mi.X.Type().Underlying().(*types.Pointer)
+				if !ok || !(isNamed(pt.Elem(), pkgExpr, "Expression") || isNamed(pt.Elem(), pkgExpr, "RangeBoundary")) {
+					continue
+				}
+				if onlyForeignUse(mi) {
+					continue // handed to fmt / reflect only (a message): not an operand
+				}
+				n++
+				why := c.ptrMayBeNil(mi.X, mi, 0)
+				if why != "" && c.nilInfeasibleHere(f, mi) {
+					why = ""
+				}
+				key := fmt.Sprintf("%s|box(%s)", fnName(f), c.key(mi.X, nil))
+				if why == "" {
+					r.ok(rule, key, c.instrPos(in), "non-nil where boxed")
+				} else {
+					r.bad(rule, key, c.instrPos(in), fmt.Sprintf("%s stores a %s in an interface value although it may be a nil pointer (%s): the operand then is a typed nil, which every `!= nil` test of the validators lets through and the next field access dereferences", fnName(f), typeStr(mi.X.Type()), why))
+				}
+			}
+		}
+	}
+	r.floor(rule, "pointers boxed into operands", n, 8)
+}
+
+// ptrMayBeNil: "" if pointer v is known non-nil at instruction at; otherwise the reason.
+func (c *Ctx) ptrMayBeNil(v ssa.Value, at ssa.Instruction, depth int) string {
+	if depth > 4 {
+		return ""
+	}
+	// a dominating v != nil test
+	if at != nil {
+		k := c.key(v, nil)
+		for _, a := range c.domAtoms(at.Block()) {
+			if a.Kind == "nil" && !a.Pos && a.Subj == k {
+				return ""
+			}
+		}
+	}
+	switch x := v.(type) {
+	case *ssa.Alloc, *ssa.FieldAddr, *ssa.IndexAddr, *ssa.MakeClosure:
+		return ""
+	case *ssa.Const:
+		if x.IsNil() {
+			return "the nil constant"
+		}
+		return ""
+	case *ssa.Phi:
+		for _, e := range x.Edges {
+			if e == ssa.Value(x) {
+				continue
+			}
+			if w := c.ptrMayBeNil(e, nil, depth+1); w != "" {
+				return w
+			}
+		}
+		return ""
+	case *ssa.Extract:
+		switch t := x.Tuple.(type) {
+		case *ssa.TypeAssert:
+			if !t.CommaOk || x.Index != 0 {
+				return ""
+			}
+			if at != nil {
+				subj, want := c.key(t.X, nil), typeStr(t.AssertedType)
+				for _, a := range c.domAtoms(at.Block()) {
+					if a.Kind == "type" && a.Pos && a.Subj == subj && a.Val == want {
+						return ""
+					}
+				}
+				return "result of the comma-ok assertion " + subj + ".(" + want + ") used where ok may be false"
+			}
+			return ""
+		case *ssa.Call:
+			return c.callResultMayBeNil(t, x.Index, depth)
+		}
+		return ""
+	case *ssa.Call:
+		return c.callResultMayBeNil(x, 0, depth)
+	case *ssa.UnOp:
+		if x.Op != token.MUL {
+			return ""
+		}
+		a, ok := x.X.(*ssa.Alloc)
+		if !ok || a.Referrers() == nil {
+			return "" // a field or element of an existing node: non-nil by induction
+		}
+		for _, ref := range *a.Referrers() {
+			switch u := ref.(type) {
+			case *ssa.Store:
+				if u.Addr == ssa.Value(a) {
+					if w := c.ptrMayBeNil(u.Val, nil, depth+1); w != "" {
+						return w
+					}
+				}
+			case *ssa.MakeInterface, *ssa.Call, *ssa.ChangeType, *ssa.Convert:
+				// the address of the pointer variable leaves the function: whoever receives it may set it to nil
+				// (encoding/json does, for the JSON value null)
+				if name := c.escapeTarget(ref); name != "" {
+					return "the address of this pointer variable is handed to " + name + ", which may leave or set it nil (json.Unmarshal does for `null`)"
+				}
+			}
+		}
+		// never stored to at all: the zero value
+		stored := false
+		for _, ref := range *a.Referrers() {
+			if u, ok := ref.(*ssa.Store); ok && u.Addr == ssa.Value(a) {
+				stored = true
+			}
+		}
+		if !stored {
+			return "pointer variable that is never assigned"
+		}
+		return ""
+	case *ssa.Parameter:
+		fn := x.Parent()
+		if fn == nil || (fn.Signature.Recv() != nil && len(fn.Params) > 0 && fn.Params[0] == x) {
+			return ""
+		}
+		idx := -1
+		for i, p := range fn.Params {
+			if p == x {
+				idx = i
+			}
+		}
+		for _, g := range c.Funcs {
+			if !inLib(g) {
+				continue
+			}
+			for _, b := range g.Blocks {
+				for _, in := range b.Instrs {
+					call, ok := in.(*ssa.Call)
+					if !ok || call.Call.StaticCallee() != fn || idx >= len(call.Call.Args) {
+						continue
+					}
+					if w := c.ptrMayBeNil(call.Call.Args[idx], call, depth+1); w != "" {
+						return fmt.Sprintf("argument of the call at %s: %s", c.instrPos(call), w)
+					}
+				}
+			}
+		}
+		return ""
+	}
+	return ""
+}
+
+func (c *Ctx) escapeTarget(ref ssa.Instruction) string {
+	switch u := ref.(type) {
+	case *ssa.Call:
+		if g := u.Call.StaticCallee(); g != nil && !inModule(g) {
+			return calleeFullName(u)
+		}
+	case *ssa.MakeInterface:
+		if u.Referrers() != nil {
+			for _, r2 := range *u.Referrers() {
+				if call, ok := r2.(*ssa.Call); ok {
+					if g := call.Call.StaticCallee(); g != nil && !inModule(g) {
+						return calleeFullName(call)
+					}
+				}
+			}
+		}
+	}
+	return ""
+}
+
+func (c *Ctx) callResultMayBeNil(call *ssa.Call, idx int, depth int) string {
+	g := call.Call.StaticCallee()
+	if g == nil || !inLib(g) || len(g.Blocks) == 0 {
+		return ""
+	}
+	if c.freshPtrFn(g, 0) && idx == 0 {
+		return ""
+	}
+	nres := g.Signature.Results().Len()
+	hasErr := nres >= 2 && isErrorType(g.Signature.Results().At(nres-1).Type())
+	for _, b := range g.Blocks {
+		ret, ok := b.Instrs[len(b.Instrs)-1].(*ssa.Return)
+		if !ok || idx >= len(ret.Results) {
+			continue
+		}
+		rv := c.resolve(ret.Results[idx], nil)
+		if k, ok := rv.(*ssa.Const); ok && k.IsNil() {
+			if hasErr {
+				// (nil, err): the caller's error test is NIL-RESULT's and ERR-PROP's matter — unless this return's
+				// error is the nil constant as well
+				if ek, ok := c.resolve(ret.Results[nres-1], nil).(*ssa.Const); !ok || !ek.IsNil() {
+					continue
+				}
+			}
+			return fnName(g) + " returns nil at " + c.instrPos(ret)
+		}
+		if w := c.ptrMayBeNil(rv, nil, depth+1); w != "" {
+			return fnName(g) + ": " + w
+		}
+	}
+	return ""
+}
+
+// onlyForeignUse: every use of the boxed value is an argument of a function outside the module (directly or
+// as an element of the variadic slice built for such a call).
+func onlyForeignUse(v ssa.Value) bool {
+	if v.Referrers() == nil || len(*v.Referrers()) == 0 {
+		return false
+	}
+	foreignCall := func(in ssa.Instruction) bool {
+		call, ok := in.(*ssa.Call)
+		if !ok {
+			return false
+		}
+		g := call.Call.StaticCallee()
+		return g != nil && !inModule(g)
+	}
+	for _, ref := range *v.Referrers() {
+		switch u := ref.(type) {
+		case *ssa.DebugRef:
+		case *ssa.Call:
+			if !foreignCall(u) {
+				return false
+			}
+		case *ssa.Store:
+			ia, ok := u.Addr.(*ssa.IndexAddr)
+			if !ok || u.Val != v {
+				return false
+			}
+			a, ok := ia.X.(*ssa.Alloc)
+			if !ok || a.Referrers() == nil {
+				return false
+			}
+			for _, r2 := range *a.Referrers() {
+				switch w := r2.(type) {
+				case *ssa.IndexAddr, *ssa.DebugRef:
+				case *ssa.Slice:
+					if w.Referrers() == nil {
+						return false
+					}
+					for _, r3 := range *w.Referrers() {
+						if _, isDbg := r3.(*ssa.DebugRef); !isDbg && !foreignCall(r3) {
+							return false
+						}
+					}
+				default:
+					return false
+				}
+			}
+		default:
+			return false
+		}
+	}
+	return true
+}
+
+// nilInfeasibleHere: the boxed pointer is the result of a library function that has a nil return, but with the
+// callee (and boolean helpers) read in place no path of f reaches the boxing with the nil result — the
+// caller's own tests exclude that return (`if num, ok := parseNumber(s); ok { … num … }`, or a guard whose
+// helper summary contradicts the callee's nil path).
+func (c *Ctx) nilInfeasibleHere(f *ssa.Function, mi *ssa.MakeInterface) bool {
+	var g *ssa.Function
+	switch x := mi.X.(type) {
+	case *ssa.Call:
+		g = x.Call.StaticCallee()
+	case *ssa.Extract:
+		if call, ok := x.Tuple.(*ssa.Call); ok {
+			g = call.Call.StaticCallee()
+		}
+	}
+	if g == nil || !inLib(g) || fnPkgPath(g) != fnPkgPath(f) {
+		return false
+	}
+	paths, complete := c.enumPathsOpt(f, 20000, &InlineOpts{Bool: true, Cyc: true, Pred: func(h *ssa.Function) bool {
+		if h == g {
+			return true
+		}
+		rs := h.Signature.Results()
+		return rs.Len() == 1 && isBool(rs.At(0).Type())
+	}})
+	if os.Getenv("LUCDBG") != "" {
+		fmt.Fprintln(os.Stderr, "nilInfeasibleHere", fnName(f), fnName(g), "paths", len(paths), complete)
+	}
+	if !complete {
+		return false
+	}
+	seen := 0
+	for _, p := range paths {
+		on := false
+		for _, in := range p.Instrs {
+			if in == ssa.Instruction(mi) {
+				on = true
+			}
+		}
+		if !on {
+			continue
+		}
+		seen++
+		v, _ := c.resolveE(mi.X, p.Env)
+		if os.Getenv("LUCDBG") != "" {
+			fmt.Fprintln(os.Stderr, "  path", atomsText(p.Atoms), "=>", c.key(v, nil))
+		}
+		if k, ok := v.(*ssa.Const); ok && k.IsNil() {
+			return false
+		}
+		if v == mi.X {
+			return false // the callee was not read in place on this path: nothing learnt
+		}
+		if c.ptrMayBeNil(v, nil, 1) != "" {
+			return false
+		}
+	}
+	return seen > 0
 }
